@@ -45,6 +45,7 @@ def run(ctx):
 
     ctx.each(shapes.copy_hook_rule, ctx, repo, "R08h")
     ctx.each(r08i, ctx, repo)
+    ctx.each(r08j, ctx, repo)
     from .c01 import r01b
 
     ctx.each(r01b, ctx, repo, T)  # links are registered on compartments only by Link.create: a copy that re-registers them elsewhere changes their order
@@ -358,3 +359,30 @@ def r08i(ctx, repo):
                         root = root.value
                     if isinstance(root, ast.Name) and root.id == fi.params[0]:
                         ctx.fail("R08i", fi, enclosing_stmt(c), "%s.%s changes `%s` in place (`%s`): every other holder of that list (a dependent parameter's `deps`, a population's lookup) sees the change, and the order / content after a copy differs from the original" % (ci.name, name, ast.unparse(c.func.value), norm(enclosing_stmt(c))[:60]), stmt_text="inplace:%s" % ast.unparse(c.func.value))
+
+
+def r08j(ctx, repo):
+    ctx.rule("R08j", "a result in memory and the same result after pickling / saving report the same numbers: Model.process ends by dropping the characteristics' integration-time storage (`charac._vals = None` for every characteristic of every population, unconditionally), so that every later read - in memory, in a copy, after a load - goes through the one on-demand computation; and Model.__getstate__ only unlinks, deep-copies the __dict__ and relinks: it does not edit the state it hands to pickle")
+    pr = repo.func("model", "Model.process")
+    me = pr.params[0]
+    drops = [s_ for s_ in ast.walk(pr.node) if isinstance(s_, ast.Assign) and isinstance(s_.targets[0], ast.Attribute) and s_.targets[0].attr == "_vals" and isinstance(s_.value, ast.Constant) and s_.value.value is None]
+    ok = len(drops) == 1
+    if ok:
+        loops = [a for a in _anc(drops[0]) if isinstance(a, ast.For)]
+        its = sorted(ast.unparse(l.iter) for l in loops)
+        from ..core.cfg import branch_guards
+
+        ok = len(loops) == 2 and its[0].endswith(".characs") and its[1] == "%s.pops" % me and not branch_guards(drops[0], stop=pr.node) and any(loops[-1] is b for b in pr.node.body)
+    ctx.check(ok, "R08j", pr, drops[0] if drops else pr.node, "process() ends by dropping the integration-time characteristic storage", "Model.process does not (unconditionally, for every characteristic of every population) set `charac._vals = None` after the run: an in-memory result then reads the values stored during integration while a pickled / loaded one recomputes them on demand, and the two computations differ (tolerance clamp, denominators)", stmt_text="drop-charac-storage")
+    gs = repo.func("model", "Model.__getstate__")
+    d = [s_ for s_ in gs.node.body if not (isinstance(s_, ast.Expr) and isinstance(s_.value, ast.Constant))]
+    shape = [ast.unparse(s_)[:40] for s_ in d]
+    okg = len(d) == 4 and ast.unparse(d[0]).endswith(".unlink()") and isinstance(d[1], ast.Assign) and ast.unparse(d[1].value) in ("sc.dcp(%s.__dict__)" % gs.params[0], "copy.deepcopy(%s.__dict__)" % gs.params[0]) and ast.unparse(d[2]).endswith(".relink()") and isinstance(d[3], ast.Return) and ast.unparse(d[3].value) == ast.unparse(d[1].targets[0])
+    ctx.check(okg, "R08j", gs, d[0] if d else gs.node, "__getstate__ = unlink, deep copy of __dict__, relink, return", "Model.__getstate__ does more than unlink / deep-copy / relink (%s): the pickled state is edited, so a saved result is not the result that was in memory" % shape, stmt_text="getstate-shape")
+
+
+def _anc(n):
+    p = getattr(n, "_parent", None)
+    while p is not None:
+        yield p
+        p = getattr(p, "_parent", None)
